@@ -948,7 +948,13 @@ func c07Decl(w *World, cf *ctxFacts, r *Result) {
 					}
 					if callee != nil && strings.HasPrefix(callee.String(), "slices.Contains") && len(c.Call.Args) == 2 {
 						if _, isPhi := c.Call.Args[0].(*ssa.Phi); isPhi && loops[b] != nil {
-							selfChecked = true
+							// what is looked for is a name (or a function that compares names): a whole
+							// definition compared with the collected definitions differs as soon as the
+							// types differ (a int, a string)
+							_, byFunc := c.Call.Args[1].Type().Underlying().(*types.Signature)
+							if isString(c.Call.Args[1].Type()) || byFunc {
+								selfChecked = true
+							}
 						}
 					}
 				}
